@@ -34,7 +34,7 @@ class Sched:
         self.cur = None
         self.capacity = capacity
         self.event_flag = False
-        self.globals_of = {}
+        self.on_switch = None
 
     # ---- threads
     def spawn(self, name, fn):
@@ -91,6 +91,8 @@ class Sched:
                      for n, t in sorted(self.T.items())) + (self.event_flag,)
 
     def _switch_to(self, name):
+        if self.on_switch is not None and self.cur != name:
+            self.on_switch(self.cur, name)
         self.cur = name
         self.T[name]["go"].release()
         self.ctl.acquire()
@@ -135,6 +137,11 @@ class World:
         self.S = Sched(capacity)
         self.nproc = 0
         w = self
+        # fork semantics for module-level state: every fake process owns a private copy of the mutable module
+        # globals of inference.* (and of the `random` / legacy numpy.random global streams), taken at start()
+        self.inventory = module_state_inventory()
+        self.private = {}
+        self.S.on_switch = self._swap_module_state
 
         class FConn:
             def __init__(self):
@@ -208,6 +215,7 @@ class World:
                     if isinstance(a, FConn):
                         a.owner = self.name
                 self._started = True
+                w.fork_state(self.name)
                 w.S.spawn(self.name, lambda: self.target(*args, **self.kwargs))
 
             def join(self, timeout=None):
@@ -223,6 +231,58 @@ class World:
             return a, b
 
         self.Conn, self.Event, self.Process, self.Pipe = FConn, FEvent, FProcess, FPipe
+
+    def fork_state(self, child):
+        """called at start(): the child inherits a deep copy of the module-level state as it is now"""
+        self.private[child] = _capture(self.inventory, deep=True)
+
+    def _swap_module_state(self, prev, nxt):
+        if prev is not None:
+            self.private[prev] = _capture(self.inventory, deep=False)
+        if nxt in self.private:
+            _install(self.inventory, self.private[nxt])
+
+
+def _mutable(v):
+    """module-level values that carry state a forked child would own privately: builtin containers, numpy arrays and
+    generators, and instances of classes defined by the library itself (callables and foreign registries are skipped)"""
+    if isinstance(v, (list, dict, set, bytearray, np.ndarray, np.random.Generator, np.random.RandomState, random.Random)):
+        return True
+    if callable(v) or isinstance(v, type):
+        return False
+    return type(v).__module__.split(".")[0] == "inference"
+
+
+def module_state_inventory():
+    import sys
+
+    inv = []
+    for modname, mod in list(sys.modules.items()):
+        if mod is None or not (modname == "inference" or modname.startswith("inference.")):
+            continue
+        for name, val in list(vars(mod).items()):
+            if name.startswith("__") or name in ("Process", "Pipe", "Event", "Pool", "choice"):
+                continue
+            if _mutable(val) and not isinstance(val, type):
+                inv.append((mod, name))
+    return inv
+
+
+def _capture(inventory, deep):
+    st = {"random": random.getstate(), "nprandom": np.random.get_state(), "vals": {}}
+    for mod, name in inventory:
+        v = getattr(mod, name, None)
+        st["vals"][(mod.__name__, name)] = copy.deepcopy(v) if deep else v
+    return st
+
+
+def _install(inventory, st):
+    random.setstate(st["random"])
+    np.random.set_state(st["nprandom"])
+    for mod, name in inventory:
+        k = (mod.__name__, name)
+        if k in st["vals"]:
+            setattr(mod, name, st["vals"][k])
 
 
 @contextlib.contextmanager
